@@ -77,9 +77,11 @@ def module_source(kinds, layout='functions'):
             ids.append(('g%d:1' % i, 'g%d' % i, kinds[i + 1]))
             i += 2
         else:
-            src += ['def f%d():' % i, '    r"""']
+            # layout 'special:<name>': the first callable is called like a command word of the runner (all, dump, list)
+            fname = layout.split(':', 1)[1] if (layout.startswith('special:') and i == 0) else 'f%d' % i
+            src += ['def %s():' % fname, '    r"""']
             src += ['    ' + l for l in doc_lines(kind, i)]
             src += ['    """', '']
-            ids.append(('f%d:0' % i, 'f%d' % i, kind))
+            ids.append(('%s:0' % fname, fname, kind))
             i += 1
     return '\n'.join(src) + '\n', ids
